@@ -218,14 +218,25 @@ func runC11Case(t *testing.T, c c11Case) CaseOut {
 }
 
 // simultaneous sessions: k scripted sessions whose hellos (and first updates) are delivered in every order
-func runC11Simul(t *testing.T, ids []string, order []int) CaseOut {
+func runC11Simul(t *testing.T, ids []string, order []int, stalled int) CaseOut {
 	var out CaseOut
 	out.Nontrivial = true
 	bubble(t, func(t *testing.T) {
 		m := newMesh(defaultConsts, "v")
 		var peers []*hSess
+		var stall chan struct{}
 		for i := range ids {
-			peers = append(peers, m.attach("v", fmt.Sprintf("s%d", i)))
+			p := m.attach("v", fmt.Sprintf("s%d", i))
+			peers = append(peers, p)
+			if i == stalled {
+				// the node's writes on this session do not complete for a while (a stream backend under back-pressure)
+				stall = make(chan struct{})
+				m.sess["v>"+fmt.Sprintf("s%d", i)].stall = stall
+			}
+		}
+		if stall != nil {
+			time.Sleep(2500 * time.Millisecond) // the initial-connect sender is now stuck behind the stalled write
+			synctest.Wait()
 		}
 		// two messages per session: hello, then own update; order lists session indices (each twice)
 		sent := map[int]int{}
@@ -236,7 +247,15 @@ func runC11Simul(t *testing.T, ids []string, order []int) CaseOut {
 				synctest.Wait()
 			}
 			sent[si]++
-			m.flush()
+			if stall == nil {
+				m.flush()
+			}
+		}
+		if stall != nil {
+			time.Sleep(500 * time.Millisecond)
+			synctest.Wait()
+			close(stall)
+			synctest.Wait()
 		}
 		m.settle()
 		// per distinct ID exactly one session survives (the one whose hello came first); others got a reject
@@ -246,7 +265,7 @@ func runC11Simul(t *testing.T, ids []string, order []int) CaseOut {
 				firstOf[ids[si]] = si
 			}
 		}
-		ctx := fmt.Sprintf("ids=%v order=%v", ids, order)
+		ctx := fmt.Sprintf("ids=%v order=%v stalled=%d", ids, order, stalled)
 		for i, id := range ids {
 			alive := !peers[i].isClosed() && !m.sentReject("v", fmt.Sprintf("s%d", i))
 			if firstOf[id] == i && !alive {
@@ -393,8 +412,10 @@ func runC11(w *W) {
 			ms = append(ms, i, i)
 		}
 		for _, ord := range perms(ms) {
-			ids, ord := ids, ord
-			w.Case(fmt.Sprintf("simul ids=%v order=%v", ids, ord), func() CaseOut { return runC11Simul(w.T, ids, ord) })
+			for stalled := -1; stalled < len(ids); stalled++ {
+				ids, ord, stalled := ids, ord, stalled
+				w.Case(fmt.Sprintf("simul ids=%v order=%v stalled=%d", ids, ord, stalled), func() CaseOut { return runC11Simul(w.T, ids, ord, stalled) })
+			}
 		}
 	}
 	chain := [][2]string{{"a", "b"}, {"b", "c"}}
@@ -430,7 +451,7 @@ func init() {
 		Level:     "model_checking",
 		Technique: "exhaustive enumeration of the handshake/announcement product with scripted peers against a reference admission predicate, every delivery order of simultaneous sessions, and deviation-bounded DFS over delivery schedules for same-ID twins; real Netceptor nodes in a synctest bubble",
 		Rule: "admission: announced ID {empty, local, allowed, not allowed, extension of an allowed ID, already connected} x origin field {same, different} x cost listed for us {absent, equal, different} x allow-list {none, set} x per-node cost override {none, set} x later behaviour {none, other forwarder, stops listing us, cost change, reject message, session end} (all 864); " +
-			"simultaneous sessions: 2 and 3 sessions with equal/different IDs, every interleaving of their hello and first update (all multiset permutations); twins: later-started node with the ID of a, b or c attached at every other position of a 3-chain and a triangle, all delivery schedules with <=1 (thorough 2) deviations. Every case is distinct and non-trivial.",
+			"simultaneous sessions: 2 and 3 sessions with equal/different IDs, every interleaving of their hello and first update (all multiset permutations), with no session or any one session under write back-pressure (its Send blocked while the hellos arrive); twins: later-started node with the ID of a, b or c attached at every other position of a 3-chain and a triangle, all delivery schedules with <=1 (thorough 2) deviations. Every case is distinct and non-trivial.",
 		Assumptions: []string{"handshake interleavings are explored at macro-step granularity (deliveries), not inside one handler", "twin start times differ by >= 1 virtual second"},
 		Run:         runC11,
 		CaseTimeout: 90 * time.Second,
